@@ -54,40 +54,24 @@ def run(ctx):
 
 
 def mirror(ctx, F):
-    push, pop = F.fn("chess::Game::push"), F.fn("chess::Game::pop")
+    """pop after push restores every square push wrote and the king cache, per concrete move case (rules/playmodel.py)."""
+    from . import playmodel
+    pop = F.fn("chess::Game::pop")
     try:
-        ex_push, _ = surgery.extract(push, F)
-        ex_pop, _ = surgery.extract(pop, F)
-    except surgery.Extraction as e:
-        ctx.check("C03.M", "extraction", False, fn=pop["path"], file=pop["file"], nontrivial=False,
-                  what="board surgery of push/pop not extractable: %s" % e)
+        bad, n = playmodel.check_pop(F)
+    except hir.Unsupported as e:
+        ctx.check("C03.M", "summarisable", False, fn=pop["path"], file=pop["file"], nontrivial=False,
+                  what="Game::push / Game::pop are no longer loop-free updates that can be summarised: %s" % e)
         return
-    n = 0
-    for v in surgery.VARIANTS:
-        for owner in ("White", "Black"):
-            p_sq = set(surgery.final_map(ex_push[v][owner]["writes"]))
-            got = ex_pop[v][owner]
-            cond = [w for w in got["writes"] if [g for g in w[2] if not g[0].startswith("arm ")]]
-            fm = surgery.final_map(got["writes"])
-            exp, king = surgery.inverse_oracle(v, owner)
-            n += 1
-            ctx.check("C03.M", "pop-restores:%s/%s" % (v, owner), fm == exp and not cond and set(fm) >= p_sq, fn=pop["path"],
-                      file=pop["file"], line=got["writes"][0][3] if got["writes"] else pop["span"][0],
-                      what="Game::pop does not restore the pre-move content of every square Game::push writes for a %s move by %s"
-                           % (v, owner), expected=_show(exp), found=_show(fm))
-            ks = got["king"]
-            pk = ex_push[v][owner]["king"]
-            if king is None:
-                ok = not ks
-            elif king == "start":
-                ok = len(ks) == 1 and ks[0][0] == owner and ks[0][1] == "start" and \
-                    [g for g in ks[0][2] if not g[0].startswith("arm ")] == [("(m.piece.piece_type == PieceType::King)", True)]
-            else:
-                ok = len(ks) == 1 and ks[0][0] == owner and ks[0][1] == king and not [g for g in ks[0][2] if not g[0].startswith("arm ")]
-            ctx.check("C03.M", "king-cache-restored:%s/%s" % (v, owner), ok and (bool(pk) == bool(ks)), fn=pop["path"], file=pop["file"],
-                      what="whenever push moves the cached king square, pop must move it back to where the king came from",
-                      expected=king, found=[(k[0], k[1], k[2]) for k in ks])
-    ctx.floor("C03.M", "mirror cases", n, 10)
+    by_case = {}
+    for name, txt in bad:
+        by_case.setdefault(name, []).append(txt)
+    for name, mv, owner, pre, exp in playmodel.move_cases():
+        probs = by_case.get(name, [])
+        ctx.check("C03.M", "pop-restores:%s" % name, not probs, fn=pop["path"], file=pop["file"], line=pop["span"][0],
+                  what="Game::pop does not restore the pre-move content of every square Game::push writes, or the cached king square, "
+                       "for this move", expected={"board before": playmodel.show_board(pre)}, found=probs or "restored")
+    ctx.floor("C03.M", "mirror cases", n, 30)
 
 
 def _show(m):
